@@ -24,9 +24,9 @@ using namespace sim;
 namespace sim { void setProcessorCount(int n); }
 
 enum Code { T_CREATE = 1, T_REMOVE, L_LISTEN, L_REMOVE, E_ADDR, E_HOST, E_REMOVE, C_PAIR, C_REMOVE, C_WRITE, C_SUSPEND, C_RESUME, S_INTERRUPT, S_WAIT, S_ACCEPTPOLICY, S_QUIET,
-            R_CONNECT, R_LISTEN, R_STALL, I_INTERRUPT, I_STALL, C_CLOSEFAR, C_WRITEALL, C_CROWD, C_CROWDGONE, C_DUPFD, CODE_N };
+            R_CONNECT, R_LISTEN, R_STALL, I_INTERRUPT, I_STALL, C_CLOSEFAR, C_WRITEALL, C_CROWD, C_CROWDGONE, C_DUPFD, C_DOOMED, CODE_N };
 static const char* codeName[] = {"?", "timer.create", "timer.remove", "listen", "listener.remove", "connect.addr", "connect.host", "establisher.remove", "pair", "client.remove", "client.write", "client.suspend", "client.resume",
-  "interrupt(self)", "wait", "accept.policy", "quiet_period", "remote.connect", "remote.listen", "remote.stall", "interrupter.interrupt", "interrupter.stall", "client.peer_closes", "client.write_all", "crowd.create", "crowd.remove_all", "client.descriptor_duplicated"};
+  "interrupt(self)", "wait", "accept.policy", "quiet_period", "remote.connect", "remote.listen", "remote.stall", "interrupter.interrupt", "interrupter.stall", "client.peer_closes", "client.write_all", "crowd.create", "crowd.remove_all", "client.descriptor_duplicated", "pair.backlog_then_peer_closes"};
 static const char* opName(int c) { return (c > 0 && c < CODE_N) ? codeName[c] : "?"; }
 
 enum Kind { K_TIMER, K_LISTENER, K_ESTAB, K_CLIENT, K_DRIVER };
@@ -202,6 +202,7 @@ static bool allSettled() {
       if (e.failedIO) return false;                                                    // a failed read/write must be followed by onClosed
       if (!e.suspended && simnet::queued(e.fd) > 0) return false;                      // readable and registered for reading: must be dispatched
       if (((Server::Client*)e.handle)->getSendBufferSize() > 0 && simnet::peerSpace(e.fd) > 0) return false;   // writable with backlog: must be served
+      if (((Server::Client*)e.handle)->getSendBufferSize() > 0 && simnet::peerClosed(e.fd)) return false;      // backlog towards a peer that is gone: the send must be attempted, fail, and be followed by onClosed
     }
     if (e.kind == K_LISTENER && !e.removed && e.alive && simnet::acceptQueueLen((int)((Socket*)e.handle)->getFileDescriptor()) > 0) return false;   // acceptable: must be served
   }
@@ -214,7 +215,7 @@ static void execOp(int code, int slot, int64_t arg, Ent* self) {
     const RunSpec& s = *C.spec;
     while (C.pos < s.plan.size() && s.plan[C.pos].task != 0) C.pos++;
     if (C.pos >= s.plan.size()) {
-      if (!C.scriptDone) { C.scriptDone = true; C.stopPeers = true; requestTail(); logEvent("script_done"); { Host h; C.pendOwn->clear(); C.pendAny->clear(); } /* nothing new happens in the quiet tail */ for (int i = 0; i < 6; ++i) if (C.clientSlot[i] && C.clientSlot[i]->suspended) { C.clientSlot[i]->suspended = false; ((Server::Client*)C.clientSlot[i]->handle)->resume(); } }
+      if (!C.scriptDone) { C.scriptDone = true; C.stopPeers = true; requestTail(); logEvent("script_done"); { Host h; C.pendOwn->clear(); C.pendAny->clear(); } /* nothing new happens in the quiet tail */ for (int i = 0; i < 6; ++i) if (C.clientSlot[i] && C.clientSlot[i]->suspended) { Ent* q = C.clientSlot[i]; if (((Server::Client*)q->handle)->getSendBufferSize() > 0 && simnet::peerClosed(q->fd)) { probe("tail_suspended_client_with_backlog_and_dead_peer"); continue; } /* stays suspended: the pending data cannot be sent any more, and that failure alone must bring onClosed */ q->suspended = false; ((Server::Client*)q->handle)->resume(); } }
       C.tailTicks++;
       if (allSettled() && !C.finishing) { C.finishing = true; logEvent("settled"); { NoPreempt np; C.interruptsInvoked++; } C.srv->interrupt(); { NoPreempt np; C.interruptsCompleted++; C.lastInterruptDoneSeq = ++C.seq; } }
       return;
@@ -261,6 +262,14 @@ static void execOp(int code, int slot, int64_t arg, Ent* self) {
     static byte hb[256]; int failedNow = 0;
     for (int i = 0; i < 6; ++i) { Ent* e = C.clientSlot[i]; if (!e || e->removed) continue; usize n = 1 + (usize)(arg % 200); usize post = 0; if (((Server::Client*)e->handle)->write(hb, n, &post)) e->accepted += n; else { e->failedIO = true; failedNow++; } }
     if (failedNow >= 2) probe("several_clients_failed_in_one_callback");
+    break; }
+  case C_DOOMED: { /* a client with unsent data whose peer goes away: pair, write until data stays behind, optionally suspend, the far end closes (now, or later through client.peer_closes) */
+    int sl = freeClientSlot(); if (sl < 0) break; Ent* e = newEnt(K_CLIENT, sl); if (!e) break; e->far = new Socket; Server::Client* c = C.srv->pair(e->ccb, *e->far); if (!c) { e->alive = false; e->removed = true; break; }
+    e->handle = c; e->fd = (int)c->getSocket().getFileDescriptor(); C.clientSlot[sl] = e;
+    static byte buf[2048]; for (int i = 0; i < 40 && c->getSendBufferSize() == 0 && !e->failedIO; ++i) { usize post = 0; usize n = 1 + (usize)((arg + i * 131) % 2048); if (c->write(buf, n, &post)) e->accepted += n; else e->failedIO = true; }
+    if (c->getSendBufferSize() > 0) probe("doomed_client_has_backlog");
+    if ((arg / 2) % 3 != 0) { c->suspend(); e->suspended = true; }
+    if (arg % 2 == 0) { e->far->close(); probe("pair_far_end_closed"); }
     break; }
   case C_DUPFD: { /* somebody else holds a duplicate of the client's descriptor (a dup(), a child forked meanwhile): closing the client's own number does not end the open file description */
     Ent* e = C.clientSlot[slot % 6]; if (e && !e->removed && C.ndups < 8) { int d = 700000 + C.ndups; if (dup2(e->fd, d) == d) { C.dups[C.ndups++] = d; probe("client_descriptor_duplicated"); } } break; }
@@ -409,6 +418,7 @@ static void generate(RunSpec& s, int tier) {
     if (profile == 4 && o.code == C_PAIR && r(2)) o.a[1] = 3 + 7 * (int64_t)r(1000);   /* three pairs at once */
     if (profile != 4 && r(25) == 0) o.code = r(2) ? C_CLOSEFAR : C_WRITEALL;
     if ((profile == 0 || profile == 3 || profile == 4) && r(20) == 0) o.code = C_DUPFD;
+    if ((profile == 0 || profile == 3 || profile == 4) && r(16) == 0) o.code = C_DOOMED;
     if (r(12) == 0) { o.code = S_QUIET; o.a[3] = 0; }   // bias towards small equal intervals: coincident due times
     s.plan.push_back(o);
   }
